@@ -149,7 +149,7 @@ def build(params: Any) -> tuple:
     return engine, sc
 
 
-def _terminating(w: Any) -> bool:
+def _terminating(w: Any, ev: Any = None) -> bool:
     if w.shutdown_at is not None:
         return True
     return any(getattr(s, "context", None) is not None and s.context.terminated.is_set() for s in w.servers)
